@@ -20,4 +20,5 @@ PROPERTIES
   Act_C15_FreshIds
   Act_Rejected_NoEffect
   Act_X15_Records
+  Act_X15_Fidelity
 CHECK_DEADLOCK FALSE
